@@ -2,8 +2,8 @@
 # tools/seed_run.sh <patch.diff> <tier> <check ids...>  -- apply to /repo, run checks, undo.
 patch=$(realpath "$1"); tier=$2; shift 2
 [ -n "$(git -C /repo status --porcelain)" ] && { echo "/repo not clean"; exit 9; }
-git -C /repo apply "$patch" || { echo "PATCH DOES NOT APPLY"; exit 8; }
-trap 'git -C /repo checkout -- . ; git -C /repo clean -fdq src' EXIT
+git -C /repo apply "$patch" 2>/dev/null || git -C /repo apply --3way "$patch" || { echo "PATCH DOES NOT APPLY"; git -C /repo reset -q --hard; exit 8; }
+trap 'git -C /repo reset -q --hard; git -C /repo clean -fdq src' EXIT
 cd /verif
 for p in "$@"; do
   out=$(./check $p --tier $tier 2>&1); rc=$?
